@@ -742,6 +742,15 @@ func ruleLimitImpl(r *Run) {
 		isLimitCmp := map[ssa.Instruction]bool{}
 		assumePos := map[*ssa.BasicBlock]int{} // block -> successor index that is infeasible under limit > 0
 		eachInstr(fn, func(in ssa.Instruction) {
+			// min(x, limit) is the comparison and the clamp in one
+			if c, ok := in.(*ssa.Call); ok && calleeName(c) == "builtin.min" {
+				for _, a := range c.Call.Args {
+					if p.stripConvAll(a) == ssa.Value(limit) {
+						isLimitCmp[in] = true
+					}
+				}
+				return
+			}
 			ifi, ok := in.(*ssa.If)
 			if !ok {
 				return
@@ -824,6 +833,32 @@ func ruleLimitImpl(r *Run) {
 			r.bad(key, hit.Pos(), "ReadNext can return a message with a nil error on a path that never compares anything with its limit parameter (assuming limit > 0): %s", p.describePath(w))
 		} else {
 			r.ok(key, fn.Pos(), "every path to a successful return of a message passes a comparison with the limit parameter (limit > 0 assumed; %d limit comparisons)", len(isLimitCmp))
+		}
+		// the same for a length reported together with an error: callers that take (n > 0, io.EOF) as the last
+		// message (the HttpBody chunker's contract) must not be handed more than the limit either
+		var hit2 ssa.Instruction
+		q2 := pathQuery{fn: fn,
+			barrier: func(x ssa.Instruction) bool { return isLimitCmp[x] },
+			edgeOK:  q.edgeOK,
+			target: func(x ssa.Instruction) bool {
+				rt, ok := x.(*ssa.Return)
+				if !ok || len(rt.Results) != 3 {
+					return false
+				}
+				for _, o := range p.origins(rt.Results[1], originOpts{throughConvert: true}) {
+					if k, ok := constInt(o); ok && k == 0 {
+						continue
+					}
+					hit2 = x
+					return true
+				}
+				return false
+			}}
+		key2 := shortFunc(fn) + "/limit-before-any-length"
+		if w, _ := q2.find(); w != nil {
+			r.bad(key2, hit2.Pos(), "ReadNext can report a non-zero message length (with or without an error) on a path that never compares anything with its limit parameter: a caller that accepts the bytes read together with io.EOF receives more than the limit: %s", p.describePath(w))
+		} else {
+			r.ok(key2, fn.Pos(), "every return of a possibly non-zero length, also next to an error, passes a comparison with the limit parameter")
 		}
 	}
 	if n == 0 {
